@@ -392,7 +392,11 @@ func main() {
 		return
 	}
 	if flag.NArg() < 1 {
-		fatal(2, "usage: drive [flags] <property id>")
+		fatal(2, "usage: drive [flags] <property id> | selftest-determinism [ids...]")
+	}
+	if flag.Arg(0) == "selftest-determinism" {
+		selftestDeterminism(flag.Args()[1:])
+		return
 	}
 	id := flag.Arg(0)
 	// flags may follow the id
@@ -743,4 +747,75 @@ func sigMatch(pattern, sig string) bool {
 		rest = rest[j+len(p):]
 	}
 	return true
+}
+
+// selftestDeterminism runs, for every scenario, the same run indices in six fresh processes
+// (2 repetitions x GOMAXPROCS 1/4/16) and compares the per-run schedule hashes, step counts, draw
+// counts and violation signatures. Any difference is a nondeterminism of the simulator.
+func selftestDeterminism(ids []string) {
+	bin := ensureBinary(os.Stdout)
+	if len(ids) == 0 {
+		b, _ := os.ReadFile(filepath.Join(verifDir, "MANIFEST.json"))
+		var m struct {
+			Checks []struct {
+				ID string `json:"property_id"`
+			} `json:"checks"`
+		}
+		json.Unmarshal(b, &m)
+		for _, c := range m.Checks {
+			ids = append(ids, c.ID)
+		}
+	}
+	runs := int(envInt("VERIF_DET_RUNS", 40))
+	dir, _ := os.MkdirTemp("/var/tmp", "verif-det-")
+	defer os.RemoveAll(dir)
+	type result struct {
+		Runs, Mismatch int
+		First          string
+	}
+	out := map[string]result{}
+	bad := false
+	for _, id := range ids {
+		var logs [][]string
+		for rep := 0; rep < 2; rep++ {
+			for _, procs := range []string{"1", "4", "16"} {
+				lp := filepath.Join(dir, fmt.Sprintf("%s-%d-%s.log", id, rep, procs))
+				cmd := exec.Command(bin, "-test.run", "^TestWorker$", "-test.cpu", procs, "-test.timeout", "30m")
+				cmd.Env = append(os.Environ(), "VERIF_PROP="+id, "VERIF_TIER=quick", "VERIF_SEED=12345", "VERIF_WORKER=0", "VERIF_WORKERS=1",
+					"VERIF_BUDGET_MS=600000", "VERIF_MAXRUNS="+strconv.Itoa(runs), "VERIF_OUT="+lp+".jsonl", "VERIF_HASHLOG="+lp,
+					"VERIF_REPLAY_DIR="+dir, "VERIF_KNOWN_SIGS=[\"*\"]", "GOMAXPROCS="+procs)
+				if b, err := cmd.CombinedOutput(); err != nil {
+					fatal(2, "selftest worker %s failed: %v\n%s", id, err, tail(string(b), 2000))
+				}
+				b, _ := os.ReadFile(lp)
+				logs = append(logs, strings.Split(strings.TrimSpace(string(b)), "\n"))
+			}
+		}
+		r := result{Runs: len(logs[0])}
+		for i := range logs[0] {
+			for _, l := range logs[1:] {
+				if i >= len(l) || l[i] != logs[0][i] {
+					r.Mismatch++
+					if r.First == "" {
+						other := "<missing>"
+						if i < len(l) {
+							other = l[i]
+						}
+						r.First = logs[0][i] + "  vs  " + other
+					}
+					break
+				}
+			}
+		}
+		out[id] = r
+		fmt.Printf("determinism %s: runs=%d x6 processes, mismatching runs=%d %s\n", id, r.Runs, r.Mismatch, r.First)
+		if r.Mismatch > 0 {
+			bad = true
+		}
+	}
+	b, _ := json.MarshalIndent(out, "", " ")
+	os.WriteFile(filepath.Join(verifDir, "evidence", "selftest-determinism.json"), b, 0o644)
+	if bad {
+		os.Exit(1)
+	}
 }
